@@ -236,6 +236,16 @@ func c05Check(k *streamCase, base *baseFrame) *ev.Finding {
 		if i := strings.LastIndex(cls, " at offset"); i > 0 {
 			cls = cls[:i]
 		}
+		if cls == "ref: truncated magic" && p != nil && p.Skipped > 0 && len(res.out) == 0 {
+			// nothing but complete skippable frames: a valid, empty stream for the Reader
+			end := 0
+			for _, f := range p.Fields {
+				end = f.Off + f.Len
+			}
+			if end == len(consumed) {
+				return nil
+			}
+		}
 		return &ev.Finding{Sig: fmt.Sprintf("Reader accepts a stream the reference rejects: %s", cls),
 			What: fmt.Sprintf("%v; %s conc=%d base=%s mutation=%s stream=%x", err, path, k.Read.Conc, k.Base, k.Mut, truncHex(k.bytes())), Case: k.frozen()}
 	}
@@ -288,6 +298,18 @@ func enumMutations(b *baseFrame, all []baseFrame, thorough bool, emit mutEmit) {
 		copy(m, fr)
 		m[bit/8] ^= 1 << uint(bit%8)
 		emit(fmt.Sprintf("flip bit %d", bit), m)
+	}
+	// truncations: the tail fields deleted (every prefix of short frames, field boundaries of long ones)
+	if len(fr) <= 600 {
+		for n := 1; n < len(fr); n++ {
+			emit(fmt.Sprintf("truncate to %d", n), fr[:n])
+		}
+	} else if p0, _ := ref.Parse(fr, c05Lenient); p0 != nil {
+		for _, f := range p0.Fields {
+			if f.Off > 0 {
+				emit(fmt.Sprintf("truncate to %d", f.Off), fr[:f.Off])
+			}
+		}
 	}
 	sb := structuralBytes(fr)
 	for _, i := range sb {
@@ -770,15 +792,15 @@ func streamReplay(prop string) func(c *ev.Ctx) {
 func init() {
 	baseRule := "base frames: reference-encoder frames with 3 small blocks for every combination of {block checksum, content checksum, content size, block independence} x raw/compressed mixes {ccc,rcc,crc,ccr,rrr,c0c}; Writer-produced frames over the quick option grid on inputs {0,1,100 incompressible,B+1 zeros}; legacy frames; a frame behind a skippable frame. Readers: concurrency {1,2} x {Read 1, Read 7, Read 64K, WriteTo}. "
 	ev.Register(&ev.Driver{Prop: "C05", Level: "fault_enumeration",
-		Rule: baseRule + "Mutations enumerated completely per base frame: every single-bit flip (frames > 600 bytes: every 37th payload bit), byte substitution from {0,1,7F,80,FF,+1,-1} at every structural byte, (thorough) every pair of bit flips in structural fields, block delete/duplicate/swap, splices at block boundaries between frames with equal flags. Oracle: whenever the Reader ends cleanly the reference parser accepts exactly the consumed bytes with identical output. Non-trivial = every mutant x reader configuration.",
+		Rule:        baseRule + "Mutations enumerated completely per base frame: every single-bit flip (frames > 600 bytes: every 37th payload bit), byte substitution from {0,1,7F,80,FF,+1,-1} at every structural byte, (thorough) every pair of bit flips in structural fields, block delete/duplicate/swap, splices at block boundaries between frames with equal flags. Oracle: whenever the Reader ends cleanly the reference parser accepts exactly the consumed bytes with identical output. Non-trivial = every mutant x reader configuration.",
 		Assumptions: []string{"ref.Parse (lenient only on what the statement does not name: version/reserved/dictionary-id bits, decoded block size, content-size value) is the specification"},
 		Run:         c05Run, Replay: streamReplay("C05")})
 	ev.Register(&ev.Driver{Prop: "C06", Level: "fault_enumeration",
-		Rule: baseRule + "Every prefix length 1..len-1 of every base frame <= 4096 bytes; for longer frames every structural boundary +-3 bytes and every 61st byte. Oracle: the outcome is an error other than a clean end (legacy: clean only on a block boundary) and the delivered bytes are a prefix of the content.",
+		Rule:        baseRule + "Every prefix length 1..len-1 of every base frame <= 4096 bytes; for longer frames every structural boundary +-3 bytes and every 61st byte. Oracle: the outcome is an error other than a clean end (legacy: clean only on a block boundary) and the delivered bytes are a prefix of the content.",
 		Assumptions: []string{"interior cut positions of frames > 4 KiB are strided (reported as exhaustive_large_frames=false)"},
 		Run:         c06Run, Replay: streamReplay("C06")})
 	ev.Register(&ev.Driver{Prop: "C07", Level: "fault_enumeration",
-		Rule: "T1 every byte string of length 0..2 (thorough 3); T2 every first word 0x184D0000|x and 0x184C0000|x and every single-bit flip of the magics, followed by nothing / a length and data / a valid frame; T3 hostile frames: every block-size code x flags (content size 2^64-1) x block size words {0,1,B-1,B,B+1,0x7FFFFFFF,0x80000000,...} x {0,1,size,size+1} following bytes with an allocation bound, skippable lengths up to 2^32-1, chains of k skippable frames / legacy magics (k up to 65536, thorough 2^22) under a 512 KiB stack limit; T4 every C05 mutant. Oracle: no panic, no worker crash, terminates, allocation within (2 x concurrency + 6) x block maximum + 4 MiB (cold buffer pools), non-magic => ErrInvalidFrame, skippable => exactly the announced bytes skipped.",
+		Rule:        "T1 every byte string of length 0..2 (thorough 3); T2 every first word 0x184D0000|x and 0x184C0000|x and every single-bit flip of the magics, followed by nothing / a length and data / a valid frame; T3 hostile frames: every block-size code x flags (content size 2^64-1) x block size words {0,1,B-1,B,B+1,0x7FFFFFFF,0x80000000,...} x {0,1,size,size+1} following bytes with an allocation bound, skippable lengths up to 2^32-1, chains of k skippable frames / legacy magics (k up to 65536, thorough 2^22) under a 512 KiB stack limit; T4 every C05 mutant. Oracle: no panic, no worker crash, terminates, allocation within (2 x concurrency + 6) x block maximum + 4 MiB (cold buffer pools), non-magic => ErrInvalidFrame, skippable => exactly the announced bytes skipped.",
 		Assumptions: []string{"inputs longer than 3 bytes are structured, not arbitrary", "the memory bound is on allocation volume (TotalAlloc), not RSS"},
 		Run:         c07Run, Replay: streamReplay("C07"),
 		Crash: func(crumb []byte, tail string) *ev.Finding {
